@@ -264,6 +264,12 @@ def rule_dispatch_restart(ctx, rep):
 
 def run(ctx):
     rep = ctx.report
+    # clause "B's blocks report line numbers shifted by the number of lines that precede B": every line
+    # number must derive from the cursor plus start_line (shared with C13)
+    from . import c13
+    c13.rule_filewrapper(ctx, rep)
+    c13.rule_capture(ctx, rep)
+    c13.rule_rows(ctx, rep)
     rule_scratch(ctx, rep)
     rule_no_reentry(ctx, rep)
     rule_cursor_local(ctx, rep)
